@@ -191,6 +191,24 @@ def _zip_targets(loop: ast.For) -> Optional[Tuple[Dict[str, str], Set[str]]]:
             and len(tgt.elts) == 2:
         counters = set(target_names(tgt.elts[0]))
         it, tgt = it.args[0], tgt.elts[1]
+    if isinstance(it, ast.Call) and call_name(it) == "range" and len(it.args) == 1 and isinstance(tgt, ast.Name) and not counters \
+            and isinstance(it.args[0], ast.Call) and call_name(it.args[0]) == "len":
+        # index loop `for k in range(len(A)): a, b = A[k], B[k]`: the lists subscripted by the counter play the zipped lists' role
+        k = tgt.id
+        out = {}
+        for n in [x for b in loop.body for x in ast.walk(b)]:
+            if isinstance(n, ast.Subscript) and isinstance(n.value, ast.Name) and isinstance(n.slice, ast.Name) and n.slice.id == k:
+                out[n.value.id] = n.value.id
+        for st in [x for b in loop.body for x in [b] + list(walk_shallow(b))]:
+            if isinstance(st, ast.Assign) and len(st.targets) == 1:
+                te, ve = st.targets[0], st.value
+                pairs = list(zip(te.elts, ve.elts)) if isinstance(te, (ast.Tuple, ast.List)) and isinstance(ve, (ast.Tuple, ast.List)) \
+                    and len(te.elts) == len(ve.elts) else [(te, ve)]
+                for a, b in pairs:
+                    if isinstance(a, ast.Name) and isinstance(b, ast.Subscript) and isinstance(b.value, ast.Name) and isinstance(b.slice, ast.Name) \
+                            and b.slice.id == k:
+                        out[a.id] = b.value.id
+        return (out, {k}) if len(out) >= 2 else None
     if not (isinstance(it, ast.Call) and isinstance(it.func, ast.Name) and it.func.id == "zip"):
         return None
     out: Dict[str, str] = {}
